@@ -217,3 +217,500 @@ Proof.
     cbn [bk upd_bk max_lin]. rewrite (EditBook.au_bk _ _ A). reflexivity.
   - destruct C as (Ct & Cl & _). apply (do_upd_track_lin st start newT newL b st' Hd Ct Cl Hn H).
 Qed.
+
+(* the invariants the lineage argument needs, as one bundle *)
+Record LWF (st : state) : Prop := {
+  l_cfg : cfg_ok st; l_dict : W_dict st; l_forest : W_forest st; l_lin : W_lin st; l_book : W_book st
+}.
+
+(* ------------------------------------------------------------------ UserDeleteEdge *)
+(* every node below v gets the fresh id next_lin st, every other node keeps its id *)
+Theorem ude_core_lin st u v : LWF st -> edge st u v ->
+  exists a st', user_delete_edge_core st u v = Ok a st' /\
+    W_dict st' /\ W_forest st' /\ gstep st st' /\ cfg_ok st' /\ W_book st' /\
+    (forall x y, edge st' x y <-> edge st x y /\ ~ (x = u /\ y = v)) /\
+    (forall x, x <> u -> successors st' x = successors st x) /\
+    successors st' u = filter (fun x => negb (v =? x)) (successors st u) /\
+    (forall m, reach st v m -> lin st' m = Some (next_lin st)) /\
+    (forall m, ~ reach st v m -> lin st' m = lin st m).
+Proof.
+  intros [C Hd Hf Hl Hb] He. unfold user_delete_edge_core. pose proof He as He'. unfold edge in He'. rewrite He'. cbn [negb].
+  destruct (do_del_edge_spec st u v He) as (b1 & s1 & H1 & _ & _ & Hs1 & _). rewrite H1. cbn [bind].
+  destruct (do_del_edge_WS st u v b1 s1 Hd Hf H1) as (Hd1 & Hf1 & He1 & Hn1 & Ha1 & Hr1).
+  assert (gstep st s1) as G1 by (now apply rest_eq_gstep).
+  assert (Hb1 : W_book s1) by (apply (EditBook.del_edge_W_book st u v b1 s1 H1 Hb)).
+  assert (C1 : cfg_ok s1) by (apply (cfg_ok_ft st s1 (gs_ft _ _ G1) C)).
+  assert (Hlin1 : forall m, lin s1 m = lin st m) by (intros m; unfold lin, zattr; now rewrite Ha1).
+  assert (L11 : forall a c, edge s1 a c -> lin s1 a = lin s1 c).
+  { intros a c E. rewrite !Hlin1. apply (wl1 _ Hl). now apply He1. }
+  assert (Hnl1 : next_lin s1 = next_lin st) by (unfold next_lin; destruct Hr1 as (_&_&Hbk&_); now rewrite Hbk).
+  assert (Hreach1 : forall m, reach s1 v m <-> reach st v m) by (apply (reach_cut_from_v st s1 u v Hf He1)).
+  assert (Nu : is_node s1 u) by (apply (gstep_is_node _ _ _ G1); apply (wd_edge_nodes _ Hd u v He)).
+  assert (Nv : is_node s1 v) by (apply (gstep_is_node _ _ _ G1); apply (wd_edge_nodes _ Hd u v He)).
+  assert (Hlen : length (successors s1 u) = (length (successors st u) - 1)%nat).
+  { rewrite Hs1, Z.eqb_refl. apply filter_remove_length; [apply (wd_adj_nodup _ Hd)|now apply edge_successors]. }
+  pose proof (wf_out _ Hf u) as Hout.
+  assert (Hs1u : successors s1 u = filter (fun x => negb (v =? x)) (successors st u)) by (now rewrite Hs1, Z.eqb_refl).
+  assert (Hs1x : forall x, x <> u -> successors s1 x = successors st x).
+  { intros x Hx. rewrite Hs1. destruct (Z.eqb_spec x u); [contradiction|reflexivity]. }
+  unfold out_degree. destruct (successors s1 u) as [|sib rest] eqn:Es.
+  + cbn [length Z.of_nat Z.eqb].
+    destruct (upd_track_step_lin s1 v (next_trk s1) (Some (next_lin s1)) C1 Hd1 Hf1 L11 Hb1 Nv)
+      as (b2 & s2 & H2 & Hd2 & Hf2 & G2 & E2 & S2 & C2 & Hb2 & _ & LA & LB).
+    rewrite H2. cbn [bind]. eexists _, s2. split; [reflexivity|].
+    split; [exact Hd2|]. split; [exact Hf2|]. split; [eapply gstep_trans; eauto|].
+    split; [exact C2|]. split; [exact Hb2|]. split; [|split; [|split; [|split]]].
+    * intros x y. rewrite E2. apply He1.
+    * intros x Hx. rewrite S2. now apply Hs1x.
+    * rewrite S2, Es. exact Hs1u.
+    * intros m R. rewrite <- Hnl1. apply LA. now apply Hreach1.
+    * intros m NR. rewrite LB, Hlin1; [reflexivity|]. intros R. apply NR. now apply Hreach1.
+  + destruct rest as [|z rest'].
+    * cbn [length]. change (Z.of_nat 1 =? 0) with false. change (Z.of_nat 1 =? 1) with true. cbv iota.
+      destruct (wd_track _ Hd1 u Nu) as [t Ht]. apply zattr_attr in Ht. rewrite Ht.
+      assert (Nsib : is_node s1 sib).
+      { apply (wd_edge_nodes _ Hd1 u sib). apply edge_successors. rewrite Es. now left. }
+      destruct (upd_track_step_lin s1 sib t None C1 Hd1 Hf1 L11 Hb1 Nsib)
+        as (b2 & s2 & H2 & Hd2 & Hf2 & G2 & E2 & S2 & C2 & Hb2 & M2 & L2).
+      rewrite H2. cbn [bind].
+      assert (Nv2 : is_node s2 v) by (now apply (gstep_is_node _ _ _ G2)).
+      destruct (wd_track _ Hd2 v Nv2) as [tv Htv]. apply zattr_attr in Htv. rewrite Htv.
+      assert (L12 : forall a c, edge s2 a c -> lin s2 a = lin s2 c).
+      { intros a c E. rewrite !L2. apply L11. now apply E2. }
+      assert (Hnl2 : next_lin s2 = next_lin st) by (unfold next_lin in *; rewrite M2; exact Hnl1).
+      destruct (upd_track_step_lin s2 v tv (Some (next_lin s2)) C2 Hd2 Hf2 L12 Hb2 Nv2)
+        as (b3 & s3 & H3 & Hd3 & Hf3 & G3 & E3 & S3 & C3 & Hb3 & _ & LA & LB).
+      rewrite H3. cbn [bind]. eexists _, s3. split; [reflexivity|].
+      split; [exact Hd3|]. split; [exact Hf3|]. split; [eapply gstep_trans; [exact G1|eapply gstep_trans; eauto]|].
+      split; [exact C3|]. split; [exact Hb3|]. split; [|split; [|split; [|split]]].
+      -- intros x y. rewrite E3, E2. apply He1.
+      -- intros x Hx. rewrite S3, S2. now apply Hs1x.
+      -- rewrite S3, S2, Es. exact Hs1u.
+      -- intros m R. rewrite <- Hnl2. apply LA. apply (reach_ext s1 s2 E2). now apply Hreach1.
+      -- intros m NR. rewrite LB, L2, Hlin1; [reflexivity|]. intros R. apply NR. apply Hreach1. now apply (reach_ext s1 s2 E2).
+    * exfalso. cbn [length] in Hlen. lia.
+Qed.
+
+Theorem ude_core_LWF st u v a st' : LWF st -> user_delete_edge_core st u v = Ok a st' -> LWF st'.
+Proof.
+  intros W H. pose proof W as [C Hd Hf Hl Hb].
+  destruct (ude_core_spec st u v Hd Hf) as [Hno _].
+  assert (He : edge st u v).
+  { destruct (has_edge st u v) eqn:E; [exact E|]. exfalso.
+    assert (~ edge st u v) as Hne by (unfold edge; congruence). rewrite (Hno Hne) in H. discriminate. }
+  destruct (ude_core_lin st u v W He) as (a0 & s0 & H0 & Hd' & Hf' & G & C' & Hb' & E' & _ & _ & LA & LB).
+  rewrite H in H0. injection H0 as <- <-.
+  constructor; auto.
+  apply (cut_W_lin st st' u v (next_lin st) Hd Hf Hl He); auto.
+  - intros n. apply (gstep_is_node _ _ _ G).
+  - apply (EditBook.next_lin_fresh st Hb).
+Qed.
+
+(* ------------------------------------------------------------------ UserAddEdge *)
+(* the part of UserAddEdge after the forced removal of the merge edge *)
+Definition uae_tail (pre : list action) (s : state) (u v : Z) : res action :=
+  let od := out_degree s u in
+  do acts, s <- (if od =? 0 then
+                   match zattr s u KTrack with
+                   | Some t => do b, s <- do_upd_track s v t (zattr s u KLin); Ok (pre ++ [ABasic b]) s
+                   | None => Err EKey s end
+                 else if od =? 1 then
+                   match successors s u with
+                   | c :: _ =>
+                       do b, s <- do_upd_track s c (next_trk s) None;
+                       match zattr s v KTrack with
+                       | Some tv => do b2, s <- do_upd_track s v tv (zattr s u KLin); Ok (pre ++ [ABasic b; ABasic b2]) s
+                       | None => Err EKey s end
+                   | [] => Err EKey s end
+                 else Err (EInvalid false) s);
+  do b', s <- do_add_edge s u v [];
+  Ok (AGroup (acts ++ [ABasic b'])) s.
+
+Lemma uae_tail_lin pre s u v : LWF s -> is_node s u -> is_node s v -> time_of s u < time_of s v ->
+  (forall p, ~ edge s p v) -> (length (successors s u) <= 1)%nat ->
+  exists a st', uae_tail pre s u v = Ok a st' /\ LWF st' /\ gstep s st' /\
+    (forall x y, edge st' x y <-> edge s x y \/ (x = u /\ y = v)) /\
+    (forall m, reach s v m -> lin st' m = lin s u) /\
+    (forall m, ~ reach s v m -> lin st' m = lin s m).
+Proof.
+  intros W Nu Nv Hts Hnp Hod'. pose proof W as [C Hds Hfs Hl Hb].
+  destruct (wd_lin _ Hds u Nu) as [lu Hlu]. apply zattr_attr in Hlu.
+  assert (L1s : forall a c, edge s a c -> lin s a = lin s c) by apply (wl1 _ Hl).
+  unfold uae_tail, out_degree. destruct (successors s u) as [|c rest] eqn:Esu.
+  2: destruct rest as [|c2 rest']; [|exfalso; cbn [length] in Hod'; lia].
+  all: cbn [length]; try change (Z.of_nat 0 =? 0) with true; try change (Z.of_nat 1 =? 0) with false; try change (Z.of_nat 1 =? 1) with true; cbv iota.
+  all: destruct (wd_track _ Hds u Nu) as [t Htk]; apply zattr_attr in Htk.
+  - (* join *)
+    rewrite Htk, Hlu.
+    destruct (upd_track_step_lin s v t (Some lu) C Hds Hfs L1s Hb Nv)
+      as (b & s2 & H2 & Hd2 & Hf2 & G2 & E2 & S2 & C2 & Hb2 & _ & LA & LB).
+    rewrite H2. cbn [bind].
+    assert (Nu2 : is_node s2 u) by (now apply (gstep_is_node _ _ _ G2)).
+    assert (Nv2 : is_node s2 v) by (now apply (gstep_is_node _ _ _ G2)).
+    destruct (do_add_edge_spec s2 u v [] Nu2 Nv2) as (b' & s3 & H3 & _). rewrite H3. cbn [bind].
+    destruct (do_add_edge_WS s2 u v [] b' s3 Hd2 Hf2 H3) as (Hd3 & Hf3 & E3 & N3 & A3 & R3).
+    { rewrite !(gstep_time _ _ _ G2). exact Hts. }
+    { intros q Hq. apply E2 in Hq. exfalso. now apply (Hnp q). }
+    { right. rewrite S2, Esu. cbn. lia. }
+    assert (G3 : gstep s s3) by (eapply gstep_trans; [exact G2|now apply rest_eq_gstep]).
+    assert (Hlin3 : forall m, lin s3 m = lin s2 m) by (intros m; unfold lin, zattr; now rewrite A3).
+    assert (Ed : forall x y, edge s3 x y <-> edge s x y \/ (x = u /\ y = v)) by (intros x y; rewrite E3, E2; tauto).
+    assert (LA' : forall m, reach s v m -> lin s3 m = lin s u) by (intros m R; rewrite Hlin3; unfold lin at 2; rewrite Hlu; now apply LA).
+    assert (LB' : forall m, ~ reach s v m -> lin s3 m = lin s m) by (intros m R; rewrite Hlin3; now apply LB).
+    eexists _, s3. split; [reflexivity|]. split; [|split; [exact G3|split; [exact Ed|split; [exact LA'|exact LB']]]].
+    constructor; [apply (cfg_ok_ft s s3 (gs_ft _ _ G3) C)|exact Hd3|exact Hf3| |apply (EditBook.add_edge_W_book s2 u v [] b' s3 H3 Hb2)].
+    apply (graft_W_lin s s3 u v Hds Hfs Hl Hts Hnp); auto. intros n. apply (gstep_is_node _ _ _ G3).
+  - (* division *)
+    assert (Nc : is_node s c) by (apply (wd_edge_nodes _ Hds u c); apply edge_successors; rewrite Esu; now left).
+    destruct (upd_track_step_lin s c (next_trk s) None C Hds Hfs L1s Hb Nc)
+      as (b & s2 & H2 & Hd2 & Hf2 & G2 & E2 & S2 & C2 & Hb2 & _ & L2).
+    rewrite H2. cbn [bind].
+    assert (Nu2 : is_node s2 u) by (now apply (gstep_is_node _ _ _ G2)).
+    assert (Nv2 : is_node s2 v) by (now apply (gstep_is_node _ _ _ G2)).
+    destruct (wd_track _ Hd2 v Nv2) as [tv Htv]. apply zattr_attr in Htv. rewrite Htv.
+    assert (Hlu2 : zattr s2 u KLin = Some lu) by (change (lin s2 u = Some lu); rewrite L2; exact Hlu).
+    rewrite Hlu2.
+    assert (L12 : forall a c, edge s2 a c -> lin s2 a = lin s2 c).
+    { intros a c0 E. rewrite !L2. apply L1s. now apply E2. }
+    destruct (upd_track_step_lin s2 v tv (Some lu) C2 Hd2 Hf2 L12 Hb2 Nv2)
+      as (b2 & s3 & H3 & Hd3 & Hf3 & G3 & E3 & S3 & C3 & Hb3 & _ & LA & LB).
+    rewrite H3. cbn [bind].
+    assert (Nu3 : is_node s3 u) by (now apply (gstep_is_node _ _ _ G3)).
+    assert (Nv3 : is_node s3 v) by (now apply (gstep_is_node _ _ _ G3)).
+    destruct (do_add_edge_spec s3 u v [] Nu3 Nv3) as (b' & s4 & H4 & _). rewrite H4. cbn [bind].
+    destruct (do_add_edge_WS s3 u v [] b' s4 Hd3 Hf3 H4) as (Hd4 & Hf4 & E4 & N4 & A4 & R4).
+    { rewrite !(gstep_time _ _ _ G3), !(gstep_time _ _ _ G2). exact Hts. }
+    { intros q Hq. apply E3, E2 in Hq. exfalso. now apply (Hnp q). }
+    { right. rewrite S3, S2, Esu. cbn. lia. }
+    assert (G4 : gstep s s4) by (eapply gstep_trans; [exact G2|eapply gstep_trans; [exact G3|now apply rest_eq_gstep]]).
+    assert (Hlin4 : forall m, lin s4 m = lin s3 m) by (intros m; unfold lin, zattr; now rewrite A4).
+    assert (Ed : forall x y, edge s4 x y <-> edge s x y \/ (x = u /\ y = v)) by (intros x y; rewrite E4, E3, E2; tauto).
+    assert (LA' : forall m, reach s v m -> lin s4 m = lin s u).
+    { intros m R. rewrite Hlin4. unfold lin at 2. rewrite Hlu. apply LA. now apply (reach_ext s s2 E2). }
+    assert (LB' : forall m, ~ reach s v m -> lin s4 m = lin s m).
+    { intros m R. rewrite Hlin4, LB, L2; [reflexivity|]. intros R'. apply R. now apply (reach_ext s s2 E2). }
+    eexists _, s4. split; [reflexivity|]. split; [|split; [exact G4|split; [exact Ed|split; [exact LA'|exact LB']]]].
+    constructor; [apply (cfg_ok_ft s s4 (gs_ft _ _ G4) C)|exact Hd4|exact Hf4| |apply (EditBook.add_edge_W_book s3 u v [] b' s4 H4 Hb3)].
+    apply (graft_W_lin s s4 u v Hds Hfs Hl Hts Hnp); auto. intros n. apply (gstep_is_node _ _ _ G4).
+Qed.
+
+Lemma uae_core_unfold st u v force : user_add_edge_core st u v force =
+  if negb (has_node st u) then Err (EInvalid false) st else
+  if negb (has_node st v) then Err (EInvalid false) st else
+  if time_of st u >=? time_of st v then Err (EInvalid false) st else
+  if (out_degree st u - (if has_edge st u v then 1 else 0)) >? 1 then Err (EInvalid false) st else
+  do pre, s <- (if in_degree st v >? 0 then
+                  if negb force then Err (EInvalid true) st
+                  else match predecessors st v with
+                       | p :: _ => do a, s <- user_delete_edge st p v false; Ok [a] s
+                       | [] => Ok [] st end
+                else Ok [] st);
+  uae_tail pre s u v.
+Proof. reflexivity. Qed.
+
+(* every node below v gets the lineage id of u (also when the old parent of v is cut off first),
+   every other node keeps its id *)
+Theorem uae_core_lin st u v force : LWF st -> uae_refused st u v force = None ->
+  exists a st', user_add_edge_core st u v force = Ok a st' /\ LWF st' /\ gstep st st' /\
+    (forall x y, edge st' x y <-> (edge st x y /\ y <> v) \/ (x = u /\ y = v)) /\
+    (forall m, reach st v m -> lin st' m = lin st u) /\
+    (forall m, ~ reach st v m -> lin st' m = lin st m).
+Proof.
+  intros W. pose proof W as [C Hd Hf Hl Hb]. rewrite uae_core_unfold. unfold uae_refused.
+  destruct (has_node st u) eqn:Eu; cbn [negb]; [|intros X; discriminate X].
+  destruct (has_node st v) eqn:Ev; cbn [negb]; [|intros X; discriminate X].
+  destruct (time_of st u >=? time_of st v) eqn:Et; [intros X; discriminate X|].
+  destruct (out_degree st u - (if has_edge st u v then 1 else 0) >? 1) eqn:Eo; [intros X; discriminate X|].
+  apply has_node_is_node in Eu. apply has_node_is_node in Ev.
+  assert (Ht : time_of st u < time_of st v) by (rewrite Z.geb_leb in Et; apply Z.leb_gt in Et; lia).
+  assert (Ho : out_degree st u - (if has_edge st u v then 1 else 0) <= 1) by (rewrite Z.gtb_ltb in Eo; apply Z.ltb_ge in Eo; lia).
+  assert (NRu : ~ reach st v u) by (intros R; destruct (reach_time st Hf v u R) as [E|Hlt]; [subst; lia|lia]).
+  destruct (in_degree st v >? 0) eqn:Ei.
+  - destruct force; cbn [negb andb]; [intros _|intros X; discriminate X].
+    apply in_degree_pos in Ei. destruct Ei as [p0 Hp0].
+    destruct (predecessors st v) as [|p r] eqn:Ep; [destruct Hp0|].
+    assert (Hpv : is_node st p /\ edge st p v) by (apply in_predecessors; rewrite Ep; now left).
+    destruct Hpv as [Np Epv].
+    destruct (ude_core_lin st p v W Epv) as (a & s & H & Hds & Hfs & Gs & Cs & Hbs & Es & Sx & Sp & LA & LB).
+    assert (Ws : LWF s) by (apply (ude_core_LWF st p v a s W H)).
+    unfold user_delete_edge, top_wrap. rewrite H. cbn [bind].
+    assert (Eonly : forall x y, edge s x y <-> edge st x y /\ y <> v).
+    { intros x y. rewrite Es. split.
+      - intros [H1 H2]. split; [exact H1|]. intros ->. apply H2. split; [|reflexivity]. apply (wf_in _ Hf x p v H1 Epv).
+      - intros [H1 H2]. split; [exact H1|]. intros [_ ->]. contradiction. }
+    assert (Hnp : forall q, ~ edge s q v) by (intros q Hq; apply Eonly in Hq; destruct Hq as [_ Hq]; congruence).
+    assert (Hod : (length (successors s u) <= 1)%nat).
+    { unfold out_degree in Ho. destruct (Z.eq_dec u p) as [->|Hup].
+      - rewrite Sp. rewrite filter_remove_length; [|apply (wd_adj_nodup _ Hd)|now apply edge_successors].
+        unfold edge in Epv. rewrite Epv in Ho. lia.
+      - rewrite (Sx u Hup). destruct (has_edge st u v) eqn:Euv; [|lia].
+        exfalso. apply Hup. apply (wf_in _ Hf u p v); [exact Euv|exact Epv]. }
+    destruct (uae_tail_lin [a] s u v Ws) as (a' & st' & H' & W' & G' & E' & LA' & LB'); auto.
+    { now apply (gstep_is_node _ _ _ Gs). }
+    { now apply (gstep_is_node _ _ _ Gs). }
+    { rewrite !(gstep_time _ _ _ Gs). exact Ht. }
+    exists a', st'. split; [exact H'|]. split; [exact W'|]. split; [eapply gstep_trans; eauto|].
+    assert (Hr : forall m, reach s v m <-> reach st v m) by (apply (reach_cut_from_v st s p v Hf Es)).
+    split; [|split].
+    + intros x y. rewrite E', Eonly. tauto.
+    + intros m R. rewrite LA' by (now apply Hr). now apply LB.
+    + intros m NR. rewrite LB' by (intros R; apply NR; now apply Hr). now apply LB.
+  - cbn [andb bind]. intros _.
+    assert (Hnop : forall p, ~ edge st p v).
+    { intros p Hp. assert (In p (predecessors st v)) as Hin by (apply in_predecessors; split; [apply (wd_edge_nodes _ Hd p v Hp)|exact Hp]).
+      assert (in_degree st v >? 0 = true) by (apply in_degree_pos; eauto). congruence. }
+    assert (Hod : (length (successors st u) <= 1)%nat).
+    { unfold out_degree in Ho. destruct (has_edge st u v) eqn:E; [exfalso; now apply (Hnop u)|lia]. }
+    destruct (uae_tail_lin [] st u v W Eu Ev Ht Hnop Hod) as (a' & st' & H' & W' & G' & E' & LA' & LB').
+    exists a', st'. split; [exact H'|]. split; [exact W'|]. split; [exact G'|]. split; [|split; assumption].
+    intros x y. rewrite E'. split; [intros [H1|H1]; [left; split; [exact H1|intros ->; now apply (Hnop x)]|now right]|tauto].
+Qed.
+
+Theorem uae_core_LWF st u v force a st' : LWF st -> user_add_edge_core st u v force = Ok a st' -> LWF st'.
+Proof.
+  intros W H. pose proof W as [C Hd Hf Hl Hb].
+  pose proof (uae_core_spec st u v force Hd Hf) as S.
+  destruct (uae_refused st u v force) as [e|] eqn:R; [rewrite S in H; discriminate|].
+  destruct (uae_core_lin st u v force W R) as (a0 & s0 & H0 & W' & _). rewrite H in H0. injection H0 as <- <-. exact W'.
+Qed.
+
+(* ------------------------------------------------------------------ the public entry points (history tail) *)
+Lemma finish_top_g s a p : g (finish_top s a p) = g s /\ ft (finish_top s a p) = ft s /\ bk (finish_top s a p) = bk s.
+Proof. unfold finish_top, hist_add. destruct (redo_stack s); auto. Qed.
+
+Lemma edge_same_g s s' x y : g s' = g s -> (edge s' x y <-> edge s x y).
+Proof. intros E. unfold edge, has_edge, adj. now rewrite E. Qed.
+Lemma lin_same_g s s' m : g s' = g s -> lin s' m = lin s m.
+Proof. intros E. unfold lin, zattr, attr, node_attrs. now rewrite E. Qed.
+Lemma is_node_same_g s s' m : g s' = g s -> (is_node s' m <-> is_node s m).
+Proof. intros E. unfold is_node, node_ids. now rewrite E. Qed.
+Lemma time_same_g s s' m : g s' = g s -> time_of s' m = time_of s m.
+Proof. intros E. unfold time_of, zattr, attr, node_attrs. now rewrite E. Qed.
+Lemma successors_same_g s s' m : g s' = g s -> successors s' m = successors s m.
+Proof. intros E. unfold successors, adj. now rewrite E. Qed.
+
+Lemma LWF_same s s' : g s' = g s -> ft s' = ft s -> bk s' = bk s -> LWF s -> LWF s'.
+Proof.
+  intros Eg Ef Eb [C Hd Hf Hl Hb]. constructor.
+  - now apply (cfg_ok_ft s s').
+  - now apply (EditBook.W_dict_same_g s s').
+  - destruct Hf as [A B D]. constructor.
+    + intros a a' c E1 E2. apply (A a a' c); now apply (edge_same_g s s').
+    + intros a. rewrite (successors_same_g s s' a Eg). apply B.
+    + intros a c E. rewrite !(time_same_g s s' _ Eg). apply D. now apply (edge_same_g s s').
+  - destruct Hl as [A B]. constructor.
+    + intros a c E. rewrite !(lin_same_g s s' _ Eg). apply A. now apply (edge_same_g s s').
+    + intros a c [Na Ra] [Nc Rc]. rewrite !(lin_same_g s s' _ Eg). apply B.
+      * split; [now apply (is_node_same_g s s')|]. intros p E. apply (Ra p). now apply (edge_same_g s s').
+      * split; [now apply (is_node_same_g s s')|]. intros p E. apply (Rc p). now apply (edge_same_g s s').
+  - now apply (EditBook.W_book_same_g s s').
+Qed.
+
+Lemma top_wrap_inv top p r a st' : top_wrap top p r = Ok a st' ->
+  exists s, r = Ok a s /\ g st' = g s /\ ft st' = ft s /\ bk st' = bk s.
+Proof.
+  unfold top_wrap. destruct r as [a0 s|e s]; [|discriminate]. intros H. injection H as <- <-.
+  exists s. split; [reflexivity|]. destruct top; [apply finish_top_g|auto].
+Qed.
+
+(* UserDeleteEdge, as called (top level or nested): what an accepted call does *)
+Theorem user_delete_edge_lin st u v top a st' : LWF st -> user_delete_edge st u v top = Ok a st' ->
+  edge st u v /\ LWF st' /\ (forall n, is_node st' n <-> is_node st n) /\
+  (forall x y, edge st' x y <-> edge st x y /\ ~ (x = u /\ y = v)) /\
+  (forall m, reach st v m -> lin st' m = Some (next_lin st)) /\
+  (forall m, ~ reach st v m -> lin st' m = lin st m).
+Proof.
+  intros W H. unfold user_delete_edge in H. apply top_wrap_inv in H. destruct H as (s & H & Eg & Ef & Eb).
+  pose proof W as [C Hd Hf Hl Hb].
+  destruct (ude_core_spec st u v Hd Hf) as [Hno _].
+  assert (He : edge st u v).
+  { destruct (has_edge st u v) eqn:E; [exact E|]. exfalso.
+    assert (~ edge st u v) as Hne by (unfold edge; congruence). rewrite (Hno Hne) in H. discriminate. }
+  pose proof (ude_core_LWF st u v a s W H) as Ws.
+  destruct (ude_core_lin st u v W He) as (a0 & s0 & H0 & _ & _ & G & _ & _ & E' & _ & _ & LA & LB).
+  rewrite H in H0. injection H0 as <- <-.
+  split; [exact He|]. split; [now apply (LWF_same s st')|].
+  split; [intros n; rewrite (is_node_same_g s st' n Eg); apply (gstep_is_node _ _ _ G)|].
+  split; [intros x y; rewrite (edge_same_g s st' x y Eg); apply E'|].
+  split; intros m Hm; rewrite (lin_same_g s st' m Eg); auto.
+Qed.
+
+(* UserAddEdge, as called: what an accepted call does *)
+Theorem user_add_edge_lin st u v force top a st' : LWF st -> user_add_edge st u v force top = Ok a st' ->
+  uae_refused st u v force = None /\ LWF st' /\ (forall n, is_node st' n <-> is_node st n) /\
+  (forall x y, edge st' x y <-> (edge st x y /\ y <> v) \/ (x = u /\ y = v)) /\
+  (forall m, reach st v m -> lin st' m = lin st u) /\
+  (forall m, ~ reach st v m -> lin st' m = lin st m).
+Proof.
+  intros W H. unfold user_add_edge in H. apply top_wrap_inv in H. destruct H as (s & H & Eg & Ef & Eb).
+  pose proof W as [C Hd Hf Hl Hb].
+  pose proof (uae_core_spec st u v force Hd Hf) as S.
+  destruct (uae_refused st u v force) as [e|] eqn:R; [rewrite S in H; discriminate|].
+  destruct (uae_core_lin st u v force W R) as (a0 & s0 & H0 & W' & G & E' & LA & LB).
+  rewrite H in H0. injection H0 as <- <-.
+  split; [reflexivity|]. split; [now apply (LWF_same s st')|].
+  split; [intros n; rewrite (is_node_same_g s st' n Eg); apply (gstep_is_node _ _ _ G)|].
+  split; [intros x y; rewrite (edge_same_g s st' x y Eg); apply E'|].
+  split; intros m Hm; rewrite (lin_same_g s st' m Eg); auto.
+Qed.
+
+(* ------------------------------------------------------------------ C05 for the two edge actions *)
+Theorem LWF_global st : LWF st ->
+  forall n m, is_node st n -> is_node st m -> (lin st n = lin st m <-> wconn st n m).
+Proof. intros [C Hd Hf Hl Hb]. now apply lineage_global. Qed.
+
+Lemma not_wconn_not_reach st v m : ~ wconn st m v -> ~ reach st v m.
+Proof. intros H R. apply H. apply rst_sym. now apply reach_wconn. Qed.
+
+Theorem delete_edge_step st u v top a st' : LWF st -> user_delete_edge st u v top = Ok a st' ->
+  LWF st' /\ forall n m, is_node st' n -> is_node st' m -> (lin st' n = lin st' m <-> wconn st' n m).
+Proof.
+  intros W H. destruct (user_delete_edge_lin st u v top a st' W H) as (_ & W' & _).
+  split; [exact W'|now apply LWF_global].
+Qed.
+
+Theorem delete_edge_frame st u v top a st' : LWF st -> user_delete_edge st u v top = Ok a st' ->
+  forall m, ~ wconn st m u -> ~ wconn st m v -> lin st' m = lin st m.
+Proof.
+  intros W H m _ Hv. destruct (user_delete_edge_lin st u v top a st' W H) as (_ & _ & _ & _ & _ & LB).
+  apply LB. now apply not_wconn_not_reach.
+Qed.
+
+Theorem add_edge_step st u v force top a st' : LWF st -> user_add_edge st u v force top = Ok a st' ->
+  LWF st' /\ forall n m, is_node st' n -> is_node st' m -> (lin st' n = lin st' m <-> wconn st' n m).
+Proof.
+  intros W H. destruct (user_add_edge_lin st u v force top a st' W H) as (_ & W' & _).
+  split; [exact W'|now apply LWF_global].
+Qed.
+
+Theorem add_edge_frame st u v force top a st' : LWF st -> user_add_edge st u v force top = Ok a st' ->
+  forall m, ~ wconn st m u -> ~ wconn st m v -> lin st' m = lin st m.
+Proof.
+  intros W H m _ Hv. destruct (user_add_edge_lin st u v force top a st' W H) as (_ & _ & _ & _ & _ & LB).
+  apply LB. now apply not_wconn_not_reach.
+Qed.
+
+(* ------------------------------------------------------------------ UserSwapPredecessors *)
+(* a step that keeps the bundle, only creates edges into nodes of D, and only relabels below nodes of D *)
+Definition dstep (D : Z -> Prop) (st st' : state) : Prop :=
+  LWF st' /\ (forall n, is_node st' n <-> is_node st n) /\
+  (forall x y, edge st' x y -> edge st x y \/ D y) /\
+  (forall m, (forall d, D d -> ~ reach st d m) -> lin st' m = lin st m).
+
+Lemma reach_D (D : Z -> Prop) st s : (forall x y, edge s x y -> edge st x y \/ D y) ->
+  forall a m, reach s a m -> (exists d, D d /\ reach st d a) -> exists d, D d /\ reach st d m.
+Proof.
+  intros E a m R Ha. apply clos_rt_rtn1 in R. induction R as [|y z Hyz _ IH]; [exact Ha|].
+  destruct (E y z Hyz) as [Est|Dz].
+  - destruct IH as (d & Dd & Rd). exists d. split; [exact Dd|]. eapply rt_trans; [exact Rd|now apply rt_step].
+  - exists z. split; [exact Dz|apply rt_refl].
+Qed.
+
+Lemma dstep_refl D st : LWF st -> dstep D st st.
+Proof. intros W. split; [exact W|]. split; [tauto|]. split; [auto|auto]. Qed.
+
+Lemma dstep_trans D a b c : dstep D a b -> dstep D b c -> dstep D a c.
+Proof.
+  intros (W1 & N1 & E1 & L1) (W2 & N2 & E2 & L2). split; [exact W2|]. split; [|split].
+  - intros n. rewrite N2. apply N1.
+  - intros x y H. destruct (E2 x y H) as [H'|H']; [now apply E1|now right].
+  - intros m Hm. rewrite L2, L1; [reflexivity|exact Hm|].
+    intros d Dd R. destruct (reach_D D a b E1 d m R) as (d' & Dd' & R'); [exists d; split; [exact Dd|apply rt_refl]|].
+    now apply (Hm d').
+Qed.
+
+Lemma dstep_delete (D : Z -> Prop) st u v top a st' : D v -> LWF st -> user_delete_edge st u v top = Ok a st' -> dstep D st st'.
+Proof.
+  intros Dv W H. destruct (user_delete_edge_lin st u v top a st' W H) as (_ & W' & N & E & _ & LB).
+  split; [exact W'|]. split; [exact N|]. split.
+  - intros x y Hxy. left. now apply E.
+  - intros m Hm. apply LB. now apply Hm.
+Qed.
+
+Lemma dstep_add (D : Z -> Prop) st u v force top a st' : D v -> LWF st -> user_add_edge st u v force top = Ok a st' -> dstep D st st'.
+Proof.
+  intros Dv W H. destruct (user_add_edge_lin st u v force top a st' W H) as (_ & W' & N & E & _ & LB).
+  split; [exact W'|]. split; [exact N|]. split.
+  - intros x y Hxy. apply E in Hxy. destruct Hxy as [[Hxy _]|[_ ->]]; [now left|now right].
+  - intros m Hm. apply LB. now apply Hm.
+Qed.
+
+Lemma bind_ok {A B} (r : res A) (f : A -> state -> res B) b s : bind r f = Ok b s -> exists x s1, r = Ok x s1 /\ f x s1 = Ok b s.
+Proof. destruct r as [x s1|e s1]; cbn [bind]; [eauto|discriminate]. Qed.
+
+Definition swap_body st n1 n2 (p1 p2 : option Z) : res action :=
+  do a1, s <- (match p1 with Some p => do a, s <- user_delete_edge st p n1 false; Ok [a] s | None => Ok [] st end);
+  do a2, s <- (match p2 with Some p => do a, s <- user_delete_edge s p n2 false; Ok (a1 ++ [a]) s | None => Ok a1 s end);
+  do a3, s <- (match p1 with Some p => do a, s <- user_add_edge s p n2 false false; Ok (a2 ++ [a]) s | None => Ok a2 s end);
+  do a4, s <- (match p2 with Some p => do a, s <- user_add_edge s p n1 false false; Ok (a3 ++ [a]) s | None => Ok a3 s end);
+  Ok (AGroup a4) s.
+
+Lemma opt_delete_dstep (D : Z -> Prop) s po n (f : action -> list action) acc r s' : D n -> LWF s ->
+  (match po with Some p => do a, s0 <- user_delete_edge s p n false; Ok (f a) s0 | None => Ok acc s end) = Ok r s' -> dstep D s s'.
+Proof.
+  intros Dn W H. destruct po as [p|].
+  - apply bind_ok in H. destruct H as (x & s1 & H & H2). injection H2 as _ <-. now apply (dstep_delete D s p n false x s1).
+  - injection H as _ <-. now apply dstep_refl.
+Qed.
+
+Lemma opt_add_dstep (D : Z -> Prop) s po n (f : action -> list action) acc r s' : D n -> LWF s ->
+  (match po with Some p => do a, s0 <- user_add_edge s p n false false; Ok (f a) s0 | None => Ok acc s end) = Ok r s' -> dstep D s s'.
+Proof.
+  intros Dn W H. destruct po as [p|].
+  - apply bind_ok in H. destruct H as (x & s1 & H & H2). injection H2 as _ <-. now apply (dstep_add D s p n false false x s1).
+  - injection H as _ <-. now apply dstep_refl.
+Qed.
+
+Lemma swap_body_dstep st n1 n2 p1 p2 a st' : LWF st -> swap_body st n1 n2 p1 p2 = Ok a st' ->
+  dstep (fun d => d = n1 \/ d = n2) st st'.
+Proof.
+  intros W H. unfold swap_body in H. set (D := fun d => d = n1 \/ d = n2).
+  assert (D1 : D n1) by (now left). assert (D2 : D n2) by (now right).
+  apply bind_ok in H. destruct H as (a1 & s1 & H1 & H).
+  apply bind_ok in H. destruct H as (a2 & s2 & H2 & H).
+  apply bind_ok in H. destruct H as (a3 & s3 & H3 & H).
+  apply bind_ok in H. destruct H as (a4 & s4 & H4 & H). injection H as _ <-.
+  pose proof (opt_delete_dstep D st p1 n1 (fun a => [a]) [] a1 s1 D1 W H1) as S1.
+  pose proof (opt_delete_dstep D s1 p2 n2 (fun a => a1 ++ [a]) a1 a2 s2 D2 (proj1 S1) H2) as S2.
+  pose proof (opt_add_dstep D s2 p1 n2 (fun a => a2 ++ [a]) a2 a3 s3 D2 (proj1 S2) H3) as S3.
+  pose proof (opt_add_dstep D s3 p2 n1 (fun a => a3 ++ [a]) a3 a4 s4 D1 (proj1 S3) H4) as S4.
+  eapply dstep_trans; [exact S1|]. eapply dstep_trans; [exact S2|]. eapply dstep_trans; [exact S3|exact S4].
+Qed.
+
+Lemma swap_core_body st n1 n2 a st' : user_swap_core st n1 n2 = Ok a st' ->
+  exists p1 p2, swap_body st n1 n2 p1 p2 = Ok a st'.
+Proof.
+  unfold user_swap_core. destruct (negb (has_node st n1) || negb (has_node st n2)); [discriminate|].
+  destruct (hd_error (predecessors st n1)) as [p1|]; destruct (hd_error (predecessors st n2)) as [p2|]; cbv zeta.
+  - destruct (p1 =? p2); [discriminate|]. destruct (time_of st p1 >=? time_of st n2); [discriminate|].
+    destruct (time_of st p2 >=? time_of st n1); [discriminate|]. intros H. exists (Some p1), (Some p2). exact H.
+  - destruct (time_of st p1 >=? time_of st n2); [discriminate|]. intros H. exists (Some p1), None. exact H.
+  - destruct (time_of st p2 >=? time_of st n1); [discriminate|]. intros H. exists None, (Some p2). exact H.
+  - discriminate.
+Qed.
+
+Theorem user_swap_lin st n1 n2 a st' : LWF st -> user_swap st n1 n2 = Ok a st' ->
+  dstep (fun d => d = n1 \/ d = n2) st st'.
+Proof.
+  intros W H. unfold user_swap in H. apply top_wrap_inv in H. destruct H as (s & H & Eg & Ef & Eb).
+  apply swap_core_body in H. destruct H as (p1 & p2 & H).
+  destruct (swap_body_dstep st n1 n2 p1 p2 a s W H) as (W' & N & E & L).
+  split; [now apply (LWF_same s st')|]. split; [|split].
+  - intros n. rewrite (is_node_same_g s st' n Eg). apply N.
+  - intros x y Hxy. apply E. now apply (edge_same_g s st' x y Eg).
+  - intros m Hm. rewrite (lin_same_g s st' m Eg). now apply L.
+Qed.
+
+Theorem swap_step st n1 n2 a st' : LWF st -> user_swap st n1 n2 = Ok a st' ->
+  LWF st' /\ forall n m, is_node st' n -> is_node st' m -> (lin st' n = lin st' m <-> wconn st' n m).
+Proof.
+  intros W H. destruct (user_swap_lin st n1 n2 a st' W H) as (W' & _).
+  split; [exact W'|now apply LWF_global].
+Qed.
+
+Theorem swap_frame st n1 n2 a st' : LWF st -> user_swap st n1 n2 = Ok a st' ->
+  forall m, ~ wconn st m n1 -> ~ wconn st m n2 -> lin st' m = lin st m.
+Proof.
+  intros W H m H1 H2. destruct (user_swap_lin st n1 n2 a st' W H) as (_ & _ & _ & L).
+  apply L. intros d [->| ->]; now apply not_wconn_not_reach.
+Qed.
